@@ -803,7 +803,7 @@ func TestVerifC02StepsFallback(t *testing.T) {
 func TestVerifC02StepsEnum(t *testing.T) {
 	rep := kit.NewReport("C02", "stepsenum")
 	defer rep.Write()
-	depth := kit.Scale(5, 6)
+	depth := kit.Scale(4, 5)
 	rep.SetRule(fmt.Sprintf("small-scope enumeration: after the fixed prefix [elect a; follow b,c; pub 2; fetch b,c; commit; pub 1 (uncommitted tail on a)] ALL sequences of length <= %d over {fail(isolate), elect b, elect c, follow a, follow b, follow c, pub1 at leader, pub1 at zombie, fetch b, fetch c, fetch a, commit, shrink a, expand a} are executed (steps that are not enabled are skipped and the sequence is pruned), then heal + converge; same oracle as the seeded schedules; non-trivial = sequence had >=1 election after the prefix; distinct = sequence", depth))
 	rep.SetExhaustive(true)
 	c02sAssumptions(rep)
